@@ -102,16 +102,16 @@ theorem closed_IdInv : Closed (fun s => s.data.IdInv) where
     exact ⟨h7 ▸ h.out, ⟨h5, h6⟩⟩
   encodeConnect := by intro s c h; show ((s.encode _).1.data).IdInv; rw [Session.encode_fst]; exact ⟨IdInv_encodeAt _ h.out, h.pid⟩
   encodeAfterAlloc := by
-    intro ε s enc h
+    intro ε s enc _ h
     show ((s.alloc.1.encode enc).1.data).IdInv
     rw [Session.encode_fst, Session.alloc_fst]
     have hf := nextPacketId_fresh s.data h.pid h.out.retCap h.out.relCap
     simp only [] at hf
     obtain ⟨_, _, _, _, h5, h6, h7, _⟩ := hf
     exact ⟨IdInv_encodeAt _ (h7 ▸ h.out), ⟨h5, h6⟩⟩
-  encodeScratch := by intro ε s enc h; show ((s.encode enc).1.data).IdInv; rw [Session.encode_fst]; exact ⟨IdInv_encodeAt _ h.out, h.pid⟩
+  encodeScratch := by intro ε s enc _ h; show ((s.encode enc).1.data).IdInv; rw [Session.encode_fst]; exact ⟨IdInv_encodeAt _ h.out, h.pid⟩
   enqueue := by
-    intro ε s enc off len isPub s3 h _ hr
+    intro ε s enc off len isPub s3 _ h _ _ hr
     rw [Session.encode_fst, Session.alloc_fst, Session.alloc_snd] at hr
     unfold Session.retain at hr
     split at hr
